@@ -796,6 +796,18 @@ impl ConstraintSynthesizer<Fq> for PublicElementInput {
         Ok(())
     }
 }
+/// the same public input allocated from the AFFINE form of the element
+#[derive(Clone)]
+pub struct PublicAffineInput {
+    pub point: Element,
+}
+impl ConstraintSynthesizer<Fq> for PublicAffineInput {
+    fn generate_constraints(self, cs: ConstraintSystemRef<Fq>) -> ark_relations::r1cs::Result<()> {
+        let a = Affine::from(self.point);
+        let _public_var: ElementVar = AllocVar::<Affine, Fq>::new_input(cs, || Ok(a))?;
+        Ok(())
+    }
+}
 #[derive(Clone)]
 pub struct NegationCircuit {
     pub pos: Element,
@@ -1030,6 +1042,9 @@ fn shapes(out: &mut dyn Write, r: &mut ChaCha20Rng, n: usize) {
         use ark_ff::ToConstraintField;
         let tcf: Vec<Vec<u8>> = p.to_field_elements().unwrap().iter().map(fq_bytes).collect();
         emit(out, json!({"k":"pubinput","p":rep(&p),"instance":inst,"tcf":tcf}));
+        // allocated from the affine form: the same single instance variable (a panic leaves the instance incomplete)
+        let inst_a = instance_assignment(PublicAffineInput { point: p });
+        emit(out, json!({"k":"pubinput","p":rep(&p),"instance":inst_a,"tcf":tcf,"from":"AffinePoint"}));
     }
 }
 
